@@ -118,8 +118,199 @@ class World17(object):
             shutil.rmtree(h, ignore_errors=True)
 
 
+class _FaultyCursor(object):
+    def __init__(self, real, conn):
+        self._real = real
+        self._conn = conn
+
+    def execute(self, q, *a):
+        self._conn.before(q)
+        self._real.execute(q, *a)
+        return self
+
+    def __getattr__(self, k):
+        return getattr(self._real, k)
+
+    def __iter__(self):
+        return iter(self._real)
+
+
+class _FaultyConn(object):
+    """the store's connection with one injected fault: the n-th statement of the chosen class (read / any) fails the way a
+    database locked by another process using the same profile fails"""
+    def __init__(self, real, fail_at, reads_only):
+        self._real = real
+        self.fail_at = fail_at
+        self.reads_only = reads_only
+        self.n = 0
+        self.fired = None
+        self.armed = True
+
+    def before(self, q):
+        if not self.armed:
+            return
+        if self.reads_only and not q.lstrip().upper().startswith("SELECT"):
+            return
+        self.n += 1
+        if self.n == self.fail_at:
+            self.fired = q.strip()[:60]
+            raise sqlite3.OperationalError("database is locked")
+
+    def cursor(self):
+        return _FaultyCursor(self._real.cursor(), self)
+
+    def execute(self, q, *a):
+        self.before(q)
+        return self._real.execute(q, *a)
+
+    def __getattr__(self, k):
+        return getattr(self._real, k)
+
+
+_fault_pool = {}
+
+
+def _fault_material():
+    """contact B in two installations, each with a key bundle; built once per process"""
+    if _fault_pool:
+        return _fault_pool
+    from axolotl.util.keyhelper import KeyHelper
+    from axolotl.state.prekeybundle import PreKeyBundle
+    from yowsup.axolotl.store.sqlite.liteaxolotlstore import LiteAxolotlStore
+    inst = []
+    for v in range(2):
+        b = LiteAxolotlStore(":memory:")
+        pks = KeyHelper.generatePreKeys(1 + 10 * v, 4)
+        for pk in pks:
+            b.storePreKey(pk.getId(), pk)
+        spk = KeyHelper.generateSignedPreKey(b.getIdentityKeyPair(), 3 + v)
+        b.storeSignedPreKey(spk.getId(), spk)
+        inst.append((b, pks, spk))
+    _fault_pool.update(inst=inst, PreKeyBundle=PreKeyBundle, Store=LiteAxolotlStore, KeyHelper=KeyHelper)
+    return _fault_pool
+
+
+def _store_fault(case, out):
+    """manager level: the owner has contact B pinned (first installation); B's second installation presents itself through a key
+    bundle or a first message while ONE statement on the owner's key store fails (database locked).  A failed read of the pin is
+    not "no pin": with automatic trust off the new identity must not get accepted, whatever else happens to the call."""
+    from yowsup.axolotl.manager import AxolotlManager
+    from yowsup.axolotl import exceptions as yex
+    from axolotl.sessionbuilder import SessionBuilder
+    from axolotl.sessioncipher import SessionCipher
+    from axolotl.untrustedidentityexception import UntrustedIdentityException as AxUntrusted
+    M = _fault_material()
+    B = "4922222222"
+    OWNER = "4911111111"
+    autotrust = bool(case.get("autotrust"))
+    action = case["action"]
+    out.label("store_fault", "action=" + action, "autotrust=%d" % autotrust, "reads_only" if case.get("reads_only", True) else "any_statement")
+    store = M["Store"](":memory:")
+    mgr = AxolotlManager(store, OWNER)
+    own_prekeys = mgr.level_prekeys(force=True)
+    own_signed = mgr.load_latest_signed_prekey(generate=True)
+
+    def bundle_of(v, k):
+        b, pks, spk = M["inst"][v]
+        pk = pks[k % len(pks)]
+        return M["PreKeyBundle"](b.getLocalRegistrationId(), 1, pk.getId(), pk.getKeyPair().getPublicKey(), spk.getId(),
+                                 spk.getKeyPair().getPublicKey(), spk.getSignature(), b.getIdentityKeyPair().getPublicKey())
+
+    ident = [M["inst"][v][0].getIdentityKeyPair().getPublicKey() for v in range(2)]
+    mgr.create_session(B, bundle_of(0, 0))
+    mgr.encrypt(B, b"first")
+    if not store.isTrustedIdentity(B, ident[0]) or store.isTrustedIdentity(B, ident[1]):
+        raise RuntimeError("setup: first identity not pinned")
+    pkmsg = None
+    if action == "pkmsg":
+        # the second installation writes first: it fetched the owner's keys
+        b2 = M["inst"][1][0]
+        # the pooled installation may remember an owner of an earlier case
+        b2.identityKeyStore.dbConn.execute("DELETE FROM identities WHERE recipient_id = ?", (OWNER,))
+        b2.identityKeyStore.dbConn.commit()
+        pk = own_prekeys[case.get("k", 0) % len(own_prekeys)]
+        ob = M["PreKeyBundle"](mgr.registration_id, 1, pk.getId(), pk.getKeyPair().getPublicKey(), own_signed.getId(),
+                               own_signed.getKeyPair().getPublicKey(), own_signed.getSignature(), mgr.identity.getPublicKey())
+        try:
+            b2.deleteAllSessions(OWNER)
+        except Exception:
+            pass
+        SessionBuilder(b2, b2, b2, b2, OWNER, 1).processPreKeyBundle(ob)
+        pkmsg = SessionCipher(b2, b2, b2, b2, OWNER, 1).encrypt(b"from the new installation\x01").serialize()
+
+    def act():
+        if action == "bundle":
+            return mgr.create_session(B, bundle_of(1, case.get("k", 0)), autotrust=autotrust)
+        return mgr.decrypt_pkmsg(B, pkmsg, False)
+
+    # ---- the call with one failing statement
+    subs = [store.identityKeyStore, store.preKeyStore, store.signedPreKeyStore, store.sessionStore, store.senderKeyStore]
+    real = store.identityKeyStore.dbConn
+    faulty = _FaultyConn(real, 1 + case.get("fail_at", 0), case.get("reads_only", True))
+    for sub in subs:
+        sub.dbConn = faulty
+    raised = None
+    result = None
+    try:
+        result = act()
+    except Exception as e:  # noqa
+        raised = e
+    finally:
+        faulty.armed = False
+        for sub in subs:
+            sub.dbConn = real
+        try:
+            real.rollback()      # the failed call's process gives up its transaction
+        except Exception:
+            pass
+    out.label("fault_fired" if faulty.fired else "fault_not_reached")
+    if faulty.fired:
+        out.label("failed_statement=" + faulty.fired.split(" WHERE")[0][:40])
+    accepted_now = raised is None
+    pinned_old = store.isTrustedIdentity(B, ident[0])
+    pinned_new = store.isTrustedIdentity(B, ident[1])
+    sess_new = False
+    if store.containsSession(B, 1):
+        rk = store.loadSession(B, 1).getSessionState().getRemoteIdentityKey()
+        sess_new = rk is not None and rk == ident[1]
+    strict = (not autotrust) or action == "pkmsg"     # the manager's decrypt has no automatic trust of its own
+    detail = {"fired": faulty.fired, "raised": repr(raised)[:160], "autotrust": autotrust, "action": action}
+    if strict:
+        if accepted_now:
+            out.fail("pin", "store_fault:%s:new_identity_accepted_while_a_store_statement_failed" % action, detail)
+        elif pinned_new and not pinned_old:
+            out.fail("pin", "store_fault:%s:remembered_identity_replaced" % action, detail)
+        elif not pinned_old:
+            out.fail("pin", "store_fault:%s:remembered_identity_lost" % action, detail)
+        elif sess_new:
+            out.fail("pin", "store_fault:%s:session_with_the_new_identity" % action, detail)
+        if out.violations:
+            return out
+        # and without the fault the same presentation is refused as ever
+        try:
+            act()
+            out.fail("pin", "store_fault:%s:new_identity_accepted_afterwards" % action, detail)
+        except (yex.UntrustedIdentityException, AxUntrusted):
+            out.label("refused_afterwards")
+        except Exception as e:
+            out.fail("pin", "store_fault:%s:afterwards_raises:%s" % (action, type(e).__name__), dict(detail, error=repr(e)[:200]))
+    else:
+        if accepted_now and not (pinned_new and sess_new):
+            out.fail("pin", "store_fault:bundle:autotrust_call_returned_without_trusting_or_without_session", detail)
+        if not pinned_old and not pinned_new:
+            out.fail("pin", "store_fault:bundle:remembered_identity_lost", detail)
+    out.info = {"nt": bool(faulty.fired)}
+    try:
+        real.close()
+    except Exception:
+        pass
+    return out
+
+
 def run_case(case):
     out = Outcome()
+    if case["sub"] == "store_fault":
+        return _store_fault(case, out)
     w = World17(case)
     try:
         return _run(case, out, w)
@@ -367,6 +558,8 @@ def nontrivial(case, out):
 
 
 def shrink_candidates(case):
+    if case["sub"] != "history":
+        return
     ops = case["ops"]
     for i in range(len(ops) - 1, -1, -1):
         yield dict(case, ops=ops[:i] + ops[i + 1:])
@@ -409,12 +602,22 @@ def _enum_basic():
                    ["restart", 1], ["send", 0, 0]]}
 
 
+def _enum_store_fault():
+    for action in ("bundle", "pkmsg"):
+        for autotrust in (False, True):
+            for reads_only in (True, False):
+                for j in range(8):
+                    yield {"sub": "store_fault", "action": action, "autotrust": autotrust, "reads_only": reads_only, "fail_at": j, "k": j % 3}
+
+
 def plan(tier):
     quick = tier == "quick"
+    fault = st.builds(lambda a, t, r, j, k: {"sub": "store_fault", "action": a, "autotrust": t, "reads_only": r, "fail_at": j, "k": k},
+                      st.sampled_from(["bundle", "pkmsg"]), st.booleans(), st.booleans(), st.integers(0, 8), st.integers(0, 3))
     return {
         "shards": 16,
-        "enumerations": [("basic_histories", _enum_basic)],
-        "strategies": [("histories", script_strategy(), 25 if quick else 700)],
+        "enumerations": [("basic_histories", _enum_basic), ("store_fault_sweep", _enum_store_fault)],
+        "strategies": [("histories", script_strategy(), 25 if quick else 700), ("store_fault", fault, 40 if quick else 600)],
         "shrink": "ddmin",
         "budget_s": 200 if quick else 2400,
     }
